@@ -140,12 +140,21 @@ func (vc *VC) step(fr *frame, st *State, instr ssa.Instruction) {
 		ln := vc.toTerm(vc.valueOf(fr, in.Len))
 		cp := vc.toTerm(vc.valueOf(fr, in.Cap))
 		vc.oblige(st, "safe", "safe.makeslice@"+vc.posHint(fr, in), vc.posString(in.Pos()), And(Ge(ln, Zero), Le(ln, cp)))
-		if el.single() {
-			comp := vc.elemsComp(el)
-			vc.hset(st, comp, Store(vc.hget(st.heap, comp), arr, ZeroOf(ArrSort(SInt, el.SortOf()))))
-			vc.noteWrite(comp, arr)
-		} else if el.K != KUnit {
-			vc.fail("make of slice with composite element type %s", el)
+		if el.K != KUnit {
+			func() {
+				defer func() {
+					if rr := recover(); rr != nil {
+						if e2, isEval := rr.(evalError); isEval {
+							vc.fail("%s", e2.msg)
+						}
+						panic(rr)
+					}
+				}()
+				for _, ln := range vc.elemLanes(el) {
+					vc.hset(st, ln.comp, Store(vc.hget(st.heap, ln.comp), arr, ZeroOf(ArrSort(SInt, ln.sort))))
+					vc.noteWrite(ln.comp, arr)
+				}
+			}()
 		}
 		fr.env[in] = SliceVal{Arr: arr, Off: Zero, Len: ln, Cap: cp, Elem: el}
 	case *ssa.Slice:
